@@ -23,6 +23,7 @@ import z3
 
 from pyvc import framework
 from pyvc import interp as I
+from pyvc import lazyseq as LZ
 from pyvc import npmodel as M
 from pyvc import terms as T
 
@@ -398,10 +399,216 @@ def molgrid_helper(chk):
     chk.add("_interpolate_molgrid_helper/post/an-atomic-grid-is-wrapped-as-a-one-atom-molecular-grid-with-unit-weights", [NP >= 1], goal, func=fq, meta={"replay": rep})
 
 
+def radial_ode_setup(chk):
+    """_solve_poisson_bvp_atomgrid / _solve_poisson_ivp_atomgrid: which ODE is handed to the ODE layer for every (l, m), and how the solutions are
+    recombined.  Nested loop contracts (degrees, orders); radial splines, the ODE layer, harmonics and the coordinate conversion by contract."""
+    eng = chk.eng
+    LH = z3.Int("half_degree")
+    LMAXV = z3.Int("largest_degree")
+    NS = z3.Int("n_shells")
+    Rr = z3.Function("r", IS, RS)
+    RHOV = z3.Function("radial_component_value", IS, RS, RS)      # (row, radius)
+    UV = z3.Function("ode_solution_value", IS, IS, RS)            # (row, evaluation point)
+    YH = z3.Function("harmonic", IS, IS, RS)
+    SPHC = z3.Function("sph_coord", IS, IS, RS)
+    BND = z3.Real("boundary")
+    rr0 = z3.Real("radius0")
+    row0 = z3.Int("row0")
+    L = (LH + 1) * (LH + 1)
+
+    for solver in ("bvp", "ivp"):
+        fq = f"{MODP}._solve_poisson_{solver}_atomgrid"
+        rep = {"what": "ode-setup", "solver": solver, "shared": True}
+        calls = []
+
+        def thunk(eng_, solver=solver, fq=fq, calls=calls):
+            del calls[:]
+            eng_.assume(z3.And(NS >= 1, NE >= 1, LMAXV >= 0, LH >= 0, 2 * LH <= LMAXV, LMAXV <= 2 * LH + 1, j0 >= 0, j0 < NE, row0 >= 0, row0 < L, rr0 > 0))
+            _q = z3.Int("q_any")
+            eng_.assume(z3.ForAll([_q], Rr(_q) > 0))
+            ag = I.Obj(eng_.get_class("grid.atomgrid", "AtomGrid"))
+            rg = I.Obj(eng_.get_class("grid.basegrid", "OneDGrid"))
+            rg.fields.update(_points=I.Arr((NS,), lambda i: Rr(T.zi(i)), "real"), _weights=I.Arr((NS,), lambda i: z3.RealVal(1), "real"), _domain=None, _kdtree=None)
+            ag.fields.update(_rgrid=rg, _kdtree=None)
+            cc = eng_.callee_contracts
+            cc["grid.atomgrid.AtomGrid.l_max"] = lambda e, f, a, k: LMAXV
+
+            def splines_contract(e, f, args, kwargs):
+                def mk(row):
+                    def spline(e2, r, nu=0):
+                        r = M.unwrap(r)
+                        if isinstance(r, I.Arr):
+                            g = r.fn
+                            return I.Arr(r.shape, lambda *i, row=row: RHOV(T.zi(row), T.zr(g(*i))), "real")
+                        return RHOV(T.zi(row), T.zr(r))
+                    return I.Model("radial_component", spline)
+                return LZ.SymList(L, mk, scalar=False)
+            cc["grid.atomgrid.AtomGrid.radial_component_splines"] = splines_contract
+
+            def ode(e, f, args, kwargs):
+                n = len(calls)
+                # the ODE layer evaluates the right-hand side and the coefficient functions while it runs: sample them now, at a generic radius
+                r1 = I.Arr((1,), lambda i: rr0, "real")
+                sampled = {}
+                try:
+                    sampled["f"] = e.call(args[1], [r1]).fn(0)
+                    cf = args[2]
+                    sampled["c"] = [(e.call(c, [r1]).fn(0) if not T.is_scalar(M.unwrap(c)) else M.unwrap(c)) for c in cf] if isinstance(cf, list) else None
+                except (IndexError, AttributeError, TypeError):
+                    sampled = {}
+                calls.append((list(args), dict(kwargs), sampled))
+                sol = I.Opaque("ode-solution", call=n)
+
+                def ev(e2, pts):
+                    return I.Arr((pts.shape[0],), lambda j: UV(sol.data["row"], T.zi(j)), "real")
+                sol.data["eval"] = ev
+                return I.Model("u_lm", lambda e2, pts, sol=sol: sol.data["eval"](e2, pts)) if False else sol
+            cc["grid.ode.solve_ode_bvp"] = ode
+            cc["grid.ode.solve_ode_ivp"] = ode
+            cc["grid.atomgrid.AtomGrid.convert_cartesian_to_spherical"] = lambda e, f, a, k: I.Arr((NE, 3), lambda j, c: SPHC(T.zi(j), T.zi(c)), "real")
+            cc["grid.utils.generate_real_spherical_harmonics"] = lambda e, f, a, k: I.Arr(((T.zi(a[0]) + 1) * (T.zi(a[0]) + 1), NE), lambda row, j: YH(T.zi(row), T.zi(j)), "real")
+            cc["grid.basegrid.Grid.integrate"] = lambda e, f, a, k: z3.Real("total_charge")
+            tf = I.Opaque("transform", domain=(Fr0, T.INF))
+
+            # the solution objects: callable; the k-th one belongs to row k
+            def solution_obj(row):
+                o = I.Opaque("ode-solution", row=row)
+                return I.Model("u_lm", lambda e2, pts, row=row: I.Arr((pts.shape[0],), lambda j: UV(T.zi(row), T.zi(j)), "real"))
+
+            def check_append(e, n, v):
+                """The object appended at position n must be the solution of the ODE of row n: inspect the recorded call that produced it."""
+                ok = isinstance(v, I.Opaque) and v.kind == "ode-solution" and v.data.get("call") is not None
+                e.oblige("append/the-appended-object-is-a-solution-returned-by-the-ode-layer", z3.BoolVal(bool(ok)), kind="inv-step")
+                if not ok:
+                    return
+                args, kw, sampled = calls[v.data["call"]]
+                n = T.zi(n)
+                lrow = outer.k            # degree of the rows being produced in this iteration of the outer loop
+                if solver == "bvp":
+                    pts_arg, fx, coeffs, cond, tfa = (args + [None] * 5)[:5]
+                else:
+                    interval, fx, coeffs, cond, tfa = (args + [None] * 5)[:5]
+                want_f = RHOV(n, rr0) * -4 * T.PI * (rr0 if solver == "bvp" else 1)
+                e.oblige("append/right-hand-side-is-minus-4-pi-[r]-times-the-radial-component-of-this-row",
+                         T.zr(sampled["f"]) == want_f if "f" in sampled else z3.BoolVal(False), kind="inv-step")
+                cs = sampled.get("c")
+                okc = isinstance(cs, list) and len(cs) == 3
+                e.oblige("append/three-coefficients", z3.BoolVal(bool(okc)), kind="inv-step")
+                if okc:
+                    lr = z3.ToReal(lrow)
+                    gl = [T.zr(cs[0]) == -lr * (lr + 1) / (rr0 * rr0), T.zr(cs[2]) == 1, T.zr(cs[1]) == (0 if solver == "bvp" else 2 / rr0)]
+                    e.oblige("append/coefficients-are-those-of-the-radial-poisson-equation-of-this-degree", z3.And(*gl), kind="inv-step")
+                first = z3.And(lrow == 0, n == 0)
+                if solver == "bvp":
+                    okb = isinstance(cond, list) and len(cond) == 2 and all(isinstance(x, tuple) and len(x) == 3 for x in cond)
+                    e.oblige("append/two-boundary-conditions", z3.BoolVal(bool(okb)), kind="inv-step")
+                    if okb:
+                        e.oblige("append/u-vanishes-at-the-origin-and-equals-the-boundary-value-only-for-l=m=0",
+                                 z3.And(z3.BoolVal(cond[0][:2] == (0, 0) and cond[1][:2] == (1, 0)), T.zr(cond[0][2]) == 0,
+                                        T.zr(cond[1][2]) == z3.If(first, BNDV[0], 0)), kind="inv-step")
+                    e.oblige("append/mesh-transform-and-solver-options-are-passed", z3.BoolVal(pts_arg is RADP[0] and tfa is tf and "tol" in kw), kind="inv-step")
+                else:
+                    oki = isinstance(cond, list) and len(cond) == 2
+                    e.oblige("append/two-initial-values", z3.BoolVal(bool(oki)), kind="inv-step")
+                    if oki:
+                        e.oblige("append/initial-values-are-the-monopole-tail-only-for-l=m=0",
+                                 z3.And(T.zr(cond[0]) == z3.If(first, BNDV[0] / RMAX, 0), T.zr(cond[1]) == z3.If(first, -BNDV[0] / (RMAX * RMAX), 0)), kind="inv-step")
+                    e.oblige("append/interval-transform-and-solver-options-are-passed", z3.BoolVal(interval is IVL[0] and tfa is tf and kw.get("no_derivatives") is True), kind="inv-step")
+            BNDV = [BND]
+            RADP = [None]
+            IVL = [None]
+            RMAX = z3.Real("r_max")
+
+            def inv_outer(fr, kk):
+                kk = T.zi(kk)
+                sp = fr.load_name("splines")
+                n_ = len(sp) if isinstance(sp, list) else sp.length
+                return z3.And(T.zi(n_) == kk * kk, T.zi(fr.load_name("i_spline")) == kk * kk)
+
+            def grab(fr):
+                if solver == "bvp":
+                    RADP[0] = fr.load_name("rad_points")
+                    BNDV[0] = T.zr(fr.load_name("boundary"))
+                else:
+                    IVL[0] = fr.load_name("r_interval")
+                    BNDV[0] = T.zr(fr.load_name("boundary"))
+
+            def havoc_outer(fr, nm, old):
+                k = outer.k
+                grab(fr)
+                if nm == "splines":
+                    return LZ.SymList(k * k, solution_obj, scalar=False, on_append=check_append)
+                if nm == "i_spline":
+                    return k * k
+                return None
+            outer = I.LoopSpec(inv_outer, havoc=havoc_outer, name="degrees", modifies=["splines", "i_spline"])
+
+            def inv_inner(fr, jj):
+                jj = T.zi(jj)
+                l = outer.k
+                sp = fr.load_name("splines")
+                n_ = len(sp) if isinstance(sp, list) else sp.length
+                return z3.And(T.zi(n_) == l * l + jj, T.zi(fr.load_name("i_spline")) == l * l + jj)
+
+            def havoc_inner(fr, nm, old):
+                j = inner.k
+                l = outer.k
+                if nm == "splines":
+                    return LZ.SymList(l * l + j, solution_obj, scalar=False, on_append=check_append)
+                if nm == "i_spline":
+                    return l * l + j
+                return None
+            inner = I.LoopSpec(inv_inner, havoc=havoc_inner, name="orders", modifies=["splines", "i_spline"])
+            eng_.loop_specs[(fq, 1)] = outer
+            eng_.loop_specs[(fq, 2)] = inner
+            try:
+                fv = I.Arr((z3.Int("n_grid"),), lambda j: RHO(T.zi(j)), "real")
+                if solver == "bvp":
+                    res = eng_.call(eng_.get_function(MODP, "_solve_poisson_bvp_atomgrid"), [ag, fv, tf], {"boundary": BND, "include_origin": False, "remove_large_pts": None, "ode_params": {"tol": T.from_float(1e-7)}})
+                else:
+                    ivl = (z3.Real("r_max"), z3.Real("r_min"))
+                    eng_.assume(z3.And(RMAX > 0, ivl[1] > 0, ivl[1] < RMAX))
+                    res = eng_.call(eng_.get_function(MODP, "_solve_poisson_ivp_atomgrid"), [ag, fv, tf], {"r_interval": ivl})
+                ev = I.Arr((NE, 3), lambda j, c: EP(T.zi(j), T.zi(c)), "real")
+                eng_.assume(z3.Or(SPHC(j0, 0) >= T.from_float(1e-300), SPHC(j0, 0) <= -T.from_float(1e-300)))
+                out = eng_.call(res, [ev])
+                return dict(out=out)
+            finally:
+                for k in ("grid.atomgrid.AtomGrid.l_max", "grid.atomgrid.AtomGrid.radial_component_splines", "grid.ode.solve_ode_bvp", "grid.ode.solve_ode_ivp",
+                          "grid.atomgrid.AtomGrid.convert_cartesian_to_spherical", "grid.utils.generate_real_spherical_harmonics", "grid.basegrid.Grid.integrate"):
+                    cc.pop(k, None)
+                eng_.loop_specs.pop((fq, 1), None)
+                eng_.loop_specs.pop((fq, 2), None)
+        Fr0 = T.from_float(0.0)
+        nund = len(chk.undecided)
+        outs = chk.explore(f"_solve_poisson_{solver}_atomgrid", thunk, func=fq)
+        if len(chk.undecided) == nund:
+            ok = any(o.kind == "return" for o in outs) and sum(1 for o in outs if o.kind == "end") >= 2 and not any(o.kind == "raise" for o in outs)
+            chk.add(f"_solve_poisson_{solver}_atomgrid/paths/exit-degree-step-and-order-step-paths-explored-no-raise", [], z3.BoolVal(ok), func=fq,
+                    meta={"replay": rep, "paths": str(sorted({(o.kind, o.note, o.exc) for o in outs}, key=str))})
+        for oi, o in enumerate(outs):
+            chk.add_from_path(f"_solve_poisson_{solver}_atomgrid/path{oi}", o, func=fq, meta={"replay": rep})
+            if o.kind in ("return", "end"):
+                chk.canary(f"_solve_poisson_{solver}_atomgrid", list(o.pc))
+            if o.kind != "return":
+                continue
+            out = o.value["out"]
+            hy = list(o.pc)
+            asm = list(o.assumptions)
+            rj = SPHC(j0, 0)
+            ps = framework.PrefixSum(f"potential_{solver}", (lambda row: UV(T.zi(row), j0) / rj * YH(T.zi(row), j0)) if solver == "bvp" else (lambda row: UV(T.zi(row), j0) * YH(T.zi(row), j0)))
+            term = T.resolve_ites(T.zr(out.fn(j0)), hy)
+            eqs = [framework.match_sum(chk, f"_solve_poisson_{solver}_atomgrid/recombination", app, ps, 0, L - 1, hy, func=fq, meta={"replay": rep}, assumptions=asm)
+                   for app in framework.find_sites(term)]
+            chk.add(f"_solve_poisson_{solver}_atomgrid/post/potential-is-the-sum-over-rows-of-{'u/r' if solver == 'bvp' else 'the-solution'}-times-the-harmonic", hy + eqs + ps.unfold(),
+                    z3.And(z3.BoolVal(out.ndim == 1), T.zi(out.shape[0]) == NE, term == ps.P(T.zi(L))), func=fq, meta={"replay": rep}, assumptions=asm)
+
+
 def build(chk):
     core_density(chk)
     robust_composition(chk)
     molgrid_helper(chk)
+    radial_ode_setup(chk)
 
 
 def main(tier="quick", seed=0, bounded=True, proof=True):
